@@ -89,6 +89,21 @@ CHECKS["C15"] = dict(
          "The compile-time half (no rule may define a non-constructor term of enum type) is outside this claim.",
     design_ref="§4 C15, §9")
 
+CHECKS["C19"] = dict(
+    category="translation_validation",
+    technique="SAT equivalence (miter) of the symbolically executed rule entry functions of the component sources vs the embedded submodules, plus syn-AST comparison of environment structs, call-site bindings, extern declarations / exported symbols and the remaining module text between the two builds",
+    text="For every corpus program the real compiler is run in both build types (the component build with the real rustc and the runtime rlib built "
+         "from /repo). (a) every exported rule function of every component file and of the corresponding embedded submodule is executed symbolically on "
+         "the same arbitrary new/old tables and the solver shows that both push the same tuples under the same conditions in the same order; (b) the "
+         "environment struct is declared identically (names, types, order) in the component file, the submodule and both module texts, and the struct "
+         "literal at the call site binds every field exactly once to the model / delta field of the same name and type; (c) exported #[no_mangle] names "
+         "and imported link_names coincide one to one with matching signatures and the theory prefix; (d) the module text without rule submodules is "
+         "AST-identical between the builds, so everything decided for the module build transfers. Behavioural equality of the two builds is derived from "
+         "(a)-(d); it is not re-established by running histories against linked component libraries.",
+    design_ref="§4 C19, §9",
+    note="Trusted: rustc, the linker, layout of repr(Rust) structs across crates, PrefixTreeN set semantics (C08). Programs are sampled (kernels, seeded "
+         "random programs; thorough: also the repository's own theories); tables are decided by the solver for universes of 2 (quick) and 3 (thorough) elements.")
+
 NOT_APPLICABLE = {
     "C02": "check not built yet (ghost-model soundness lemma planned, DESIGN.md §9)",
     "C03": "check not built yet (follows from C01 + C02 lemmas; idempotence lemma planned)",
